@@ -528,6 +528,45 @@ Proof.
   - apply metric_kind_class, HK.
 Qed.
 
+(* ------------------------------------------------------------------ statements in the form used by Props/C18, C19 *)
+Lemma ground_instances_spec P sigs aid args :
+  In (aid, args) (all_insts P sigs) <->
+  exists sig, In (aid, sig) sigs /\ Forall2 (fun t v => exists o, v = VObj o /\ In o (objs_of P t)) sig args.
+Proof.
+  rewrite in_all_insts.
+  split; intros (sig & H1 & H2); exists sig; (split; [exact H1 | apply in_arg_tuples, H2]).
+Qed.
+
+Lemma bisim_check_closed_sound_runs P Q MP MQ sigsP sigsQ l0P l0Q n cap :
+  bisim_check P Q MP MQ sigsP sigsQ l0P l0Q n cap = BClosed ->
+  forall plan, Forall (fun i => In i (all_insts P sigsP)) plan ->
+    ostate_eq (run P (spec_step false P) (st_of l0P) plan) (run Q (spec_step false Q) (st_of l0Q) plan) /\
+    valid_plan false P (st_of l0P) plan = valid_plan false Q (st_of l0Q) plan.
+Proof.
+  intros H plan HP.
+  destruct (bisim_check_closed_sound P Q MP MQ sigsP sigsQ l0P l0Q n cap H plan HP) as (_ & A & B). split; assumption.
+Qed.
+
+Lemma bisim_check_bounded_sound_runs P Q MP MQ sigsP sigsQ l0P l0Q n cap b :
+  bisim_check P Q MP MQ sigsP sigsQ l0P l0Q n cap = BBounded b ->
+  forall plan, (length plan <= b)%nat -> Forall (fun i => In i (all_insts P sigsP)) plan ->
+    ostate_eq (run P (spec_step false P) (st_of l0P) plan) (run Q (spec_step false Q) (st_of l0Q) plan) /\
+    valid_plan false P (st_of l0P) plan = valid_plan false Q (st_of l0Q) plan.
+Proof.
+  intros H plan HL HP.
+  destruct (bisim_check_bounded_sound P Q MP MQ sigsP sigsQ l0P l0Q n cap b H plan HL HP) as (_ & A & B). split; assumption.
+Qed.
+
+Lemma bisim_check_static_objects P Q MP MQ sigsP sigsQ l0P l0Q n cap :
+  (forall w tr i, bisim_check P Q MP MQ sigsP sigsQ l0P l0Q n cap <> BFail w tr i) ->
+  (forall t o, In o (objs_of P t) <-> In o (objs_of Q t)) /\
+  (forall i, In i (all_insts P sigsP) <-> In i (all_insts Q sigsP)) /\
+  state_eq (st_of l0P) (st_of l0Q).
+Proof.
+  intros H. destruct (bisim_check_static P Q MP MQ sigsP sigsQ l0P l0Q n cap H) as (A & B & C & _).
+  repeat split; auto; apply A || apply B.
+Qed.
+
 Lemma plan_eqb_eq a : forall b, plan_eqb a b = true -> a = b.
 Proof.
   induction a as [|[x u] a IH]; intros [|[y v] b]; simpl; try discriminate; [reflexivity|].
